@@ -112,7 +112,7 @@ extern "C" void harness_endpoints()  /* vf: bounds=1_template,3_locations,1_bran
     vf_reach("end");
 }
 
-extern "C" void harness_locations()  /* vf: bounds=2_templates_x_3_locations:named/anonymous,white_space_around_names(6_paddings),urgent/committed,invariant_and/or_rate_label,initial_location_index;second_template_fixed */
+extern "C" void harness_locations()  /* vf: bounds=2_templates_x_3_locations:named/anonymous,white_space_around_names(6_paddings),urgent/committed,invariant_and/or_rate_label,followed_or_not_by_comments_labels,initial_location_index;second_template_fixed */
 {
     MModel m; m.gdecl = GDECL; m.system = "system T, U;";
     MTemplate t = base_template("T", 0), u = base_template("U", 1);
@@ -129,8 +129,15 @@ extern "C" void harness_locations()  /* vf: bounds=2_templates_x_3_locations:nam
     if (lab & 1) t.locs[0].inv = "x <= 5";
     if (lab & 2) t.locs[0].rate = "3";
     if (lab1) t.locs[1].inv = "y <= 7";
+    // a comments label (as the editor writes it for a location or edge with a comment) after the labels that carry meaning
+    int cm = vf_pick("!comments_labels", 4);
+#ifndef VF_TIER_THOROUGH
+    vf_assume(cm == 0 || (pad == 0 && fl == 0 && fl1 == 0));   // quick tier: comments vary with the labels, the naming and the initial location
+#endif
+    if (cm & 1) { t.locs[0].comment = "waits for the signal"; t.locs[1].comment = "n/a"; }
+    if (cm & 2) u.locs[1].comment = "remark";
     u.locs[1].inv = "x <= 9"; u.locs[2].committed = true; u.init = 1;
-    MEdge e; e.src = 0; e.dst = 1; e.guard = "g < 1"; t.edges.push_back(e);
+    MEdge e; e.src = 0; e.dst = 1; e.guard = "g < 1"; if (cm & 1) e.comment = "taken once"; t.edges.push_back(e);
     MEdge f; f.src = 1; f.dst = 2; f.assign = "h = 2"; u.edges.push_back(f);
     m.templs.push_back(t); m.templs.push_back(u);
     run_and_compare(m);
